@@ -25,16 +25,20 @@ CHECKS = [
      "Seeded search over keygen runs of both curves; algebraic oracle over all parties' outputs (identical public view, Xi*G, every (t+1)- and (t+2)-subset in the exponent, "
      "secret interpolation, Paillier key consistency)."),
     ("C04", "exploration", TECH_SCHED, "DESIGN.md 3 C04",
-     "Seeded search over resharing runs with completion, cut-at-step and silenced-party faults and chains; the erase-ordering invariant is evaluated after every event, old "
-     "keys must still sign after an interruption, new members must sign under the same key, t' members must fail."),
+     "Seeded search over resharing runs with completion, cut-at-step, silenced-party and mid-step crash faults (a party's entropy source fails at a seeded read, the call panics "
+     "out of the library) and chains; the erase-ordering and save-before-ack invariants are evaluated after every event, old keys must still sign after an interruption, new "
+     "members must sign under the same key, t' members must fail."),
     ("C05", "fault_enumeration", TECH_BYZ, "DESIGN.md 3 C05, appendix B",
      "Listed fault space of single-field alterations by one deviating party in all six protocols (thorough walks it completely, quick samples by seed), including openings the "
-     "deviating party has committed to; oracles: honest outputs valid and equal, blame only on the deviator, exact blame for covered fields, no key loss in resharing. "
+     "deviating party has committed to, point-to-point messages altered for one recipient only, congruent non-canonical scalars; half of the cells under pre-Start or random "
+     "delivery; oracles: honest outputs valid and equal, blame only on the deviator, exact blame for covered fields, no key loss in resharing. "
      "Fault enumeration is the right level: the quantifier is a finite product of message fields and alteration kinds."),
     ("C06", "fault_enumeration", TECH_BYZ, "DESIGN.md 3 C06",
      "Boundary-value alphabet on every field of every message plus crafted relations (committed off-curve/identity/torsion points, openings of wrong length, thetas summing to "
      "zero) plus wire-level junk (mutated, truncated, foreign-type, unknown-type bytes, odd sender indices, before Start and after finish) against real parties in "
-     "crash-isolated processes; oracle: every call returns, no panic in any goroutine, no hang. Decided only for values a message can carry to the verifiers/decoders."),
+     "crash-isolated processes, half of the cells under pre-Start or random delivery and half of them driving a party on after it reported an error; oracle: every call "
+     "returns, no panic in any goroutine, no hang (a real-time stall watchdog in the worker turns a leaked lock into a hang report). Decided only for values a message can "
+     "carry to the verifiers/decoders."),
     ("C07", "exploration", TECH_SCHED, "DESIGN.md 3 C07",
      "Seeded and directed schedule search (FIFO reference vs. LIFO, starvation, future-first, duplicate-everything, pre-Start flood, random, mixed) over all six protocols; same "
      "message multiset and routing as the reference, exactly one result, drained network implies everyone finished."),
@@ -50,28 +54,31 @@ CHECKS = [
      "with leading-zero entropy injected) must be accepted; witnesses and sessions are those the protocols produce."),
     ("C11", "fault_enumeration", "deterministic simulation with Byzantine prover nodes: a listed attack catalogue (one behaviour per verifier guard) in which the deviating "
      "party runs the library's own provers on false statements or out-of-range witnesses inside real protocol runs", "DESIGN.md 3 C11, appendix C",
-     "Partial claim: for each guard in the catalogue the honest verifier must abort in the checking round and name the prover. Soundness against provers outside the "
-     "catalogue is not decided (it quantifies over all strategies)."),
+     "Partial claim: for each guard in the catalogue the honest verifier must abort in the checking round and name the prover; plus harness-built transcripts that satisfy every "
+     "equation of a verifier and fail exactly one guard, handed to the exported verifier. Soundness against provers outside the catalogue is not decided (it quantifies over "
+     "all strategies)."),
     ("C12", "fault_enumeration", TECH_BYZ, "DESIGN.md 3 C12",
-     "Every component and every index of every proof as carried by the protocols, perturbed in flight (+1, -1, random, swap with neighbour, zero; thorough walks the complete "
+     "Every component and every index of every proof as carried by the protocols, perturbed in flight (+1, -1, random, swap with neighbour, zero, q-x, p-x; thorough walks the complete "
      "index range of the 258/163/13/12/11/10/6-element proofs): the consuming honest party must reject and name the sender. Statement/session substitution by mirror of "
-     "another party's proof component is part of the same matrix (kind 'other' in C05)."),
+     "another party's proof component is part of the same matrix (kind 'other' in C05). A proof-level bench (prover -> wire parts -> one part replaced -> parser -> verifier, "
+     "eleven proof systems, every part x seven kinds, other session, altered statement components) runs in front of the matrix in both tiers."),
     ("C13", "exploration", TECH_SCHED + "; two-node exchange over the simulated transport for the exported share-conversion functions", "DESIGN.md 3 C13",
      "Partial claim: in-flight ciphertext alterations inside real signing runs must be rejected with blame; two-node Alice/Bob exchanges over all ordered pairs of the vendored "
      "parameter sets with the per-pair identity alpha+beta=ab as oracle; the aggregate identity is certified by every valid signature of C01."),
     ("C15", "fault_enumeration", TECH_BYZ, "DESIGN.md 3 C15",
      "Partial claim, in situ through keygen and resharing (dealer = each party): altered shares, commitments and committed openings must be rejected with blame on the dealer; "
-     "shares read from the wire verify only under their own id and reconstruct with t+1 but not with t; inadmissible id configurations are refused at Start."),
+     "shares read from the wire verify only under their own id (harness arithmetic and the library's Share.Verify) and reconstruct with every subset of t+1 or more but not "
+     "with t (harness Lagrange code and the library's ReConstruct); inadmissible id configurations are refused at Start."),
     ("C18", "exploration", TECH_SCHED + "; reference-model comparison against the harness's BIP32 public-derivation implementation", "DESIGN.md 3 C18",
      "Partial claim: derive-then-sign histories; each derivation step is compared with an independent BIP32 model (self-tested on published vectors), each signing step is a "
      "simulated threshold signing that must verify under the child key, not the parent, and leave the stored shares unchanged."),
     ("C19", "exploration", "deterministic simulation of the concurrent generator on a simulated entropy source: parked generator goroutines released in seeded order, "
      "cancellation / entropy failure / fake-clock deadline injected at seeded read ordinals, leak detection by reads after return", "DESIGN.md 3 C19",
      "Structure of generated safe primes and pre-parameters, prompt stop on cancellation/entropy failure/deadline, no goroutine left behind, sampler contracts under adversarial "
-     "entropy tapes."),
+     "entropy tapes; pre-parameter generation also with one of its two concurrent prime searches starved until the other finished and a fault at that instant."),
     ("C20", "exploration", TECH_SCHED + "; operation histories against a simulated key store with deep snapshot comparison", "DESIGN.md 3 C20",
      "Histories of reload / sign / repeated sign / sign-with-offset / aborted sign on one key: caller-held key data byte-identical after every operation, reloaded data signs "
-     "identically, all completed sessions use distinct nonces."),
+     "identically, all completed sessions use distinct nonces; a second batch runs 2-3 sessions over the same key data side by side under the race detector."),
 ]
 
 NOT_APPLICABLE = [
